@@ -34,6 +34,14 @@ CONFIG = {
             "graphs, quoted triples, literals of every value class) x 3 queries each from the grammar (<= 4 triple patterns over a 5-variable "
             "pool so that variables repeat, _:x / [] placeholders, << >> patterns nested once, UNION / GRAPH <g> / GRAPH ?g / sub-select / "
             "FILTER / BIND nested to depth 2, DISTINCT, projection incl. unbound variables and (expr AS ?w), ORDER BY, OFFSET/LIMIT, ASK). "
+            "Most BGPs are consistent generalisations of triples of the graph they will be matched against (same term -> same "
+            "variable, later patterns linked to earlier ones), filters mostly test bound variables against terms of the data. A second "
+            "family (about half of the generated queries; every third dataset is 'compact': few terms occurring as subject, object and "
+            "predicate) produces rows with DIFFERENT domains: UNION branches over different variables sharing terms, BIND that errs on "
+            "some rows, GRAPH ?g / GRAPH <iri> next to default-graph patterns, under DISTINCT / projection of 2-3 variables / ORDER BY / "
+            "OFFSET-LIMIT. Effectiveness is measured on the real engine while generating and reported in the stats (eff.*: non-empty "
+            "results, >= 2 rows, heterogeneous rows; flow.<operator>.*: rows flowing into each operator, DISTINCT removing rows, "
+            "filters keeping some and dropping some, both UNION sides non-empty). "
             "Texts are parsed by the real spargebra; the request carries the algebra. A case is non-trivial when the engine returns at "
             "least one row / true; distinct = distinct request lines",
     "trusted_base": ["transcription of SPARQL 1.1 sections 17.2-17.4 (core) and 18.3-18.6 in lean/SophiaModel/Model/SparqlSpec.lean",
